@@ -70,6 +70,36 @@ TEMPLATES = [
 ]
 
 
+def _clause_templates():
+    """SELECT statements with every subset of the optional clauses (so that HAVING without GROUP BY, ORDER BY without WHERE ...
+    all occur), one literal slot per clause, over a single table, a cross-integration join and a derived table"""
+    out = []
+    froms = [('select', 'int1.t1', 't1'), ('join', 'int1.t1 JOIN int2.t2 ON t1.id = t2.id', 't1'), ('select', '(SELECT * FROM int1.t1) AS t1', 't1')]
+    for kind, frm, al in froms:
+        for mask in range(32):
+            distinct, where, group, having, order = [(mask >> b) & 1 for b in range(5)]
+            labels = ['select-list']
+            sql = 'SELECT ' + ('DISTINCT ' if distinct else '') + f'{al}.a + {{0}} AS k FROM ' + frm
+            k = 1
+            if where:
+                sql += f' WHERE {al}.b = {{{k}}}'
+                labels.append('where'); k += 1
+            if group:
+                sql += f' GROUP BY {al}.a + {{{k}}}'
+                labels.append('group-by'); k += 1
+            if having:
+                sql += f' HAVING count(*) > {{{k}}}'
+                labels.append('having' if group else 'having-without-group-by'); k += 1
+            if order:
+                sql += f' ORDER BY {al}.a + {{{k}}}'
+                labels.append('order-by'); k += 1
+            out.append((kind, sql, labels))
+    return out
+
+
+TEMPLATES += _clause_templates()
+
+
 def instantiate(tpl, nslots, chosen):
     """-> (text with ?, text with inline markers, markers in text order)"""
     vals_q, vals_i = [], []
@@ -304,6 +334,11 @@ class CHECK(Check):
             res.count('history_skipped_no_bindable_slots')
             return res
         n = len(markers)
+        ref_fp = None
+        try:
+            ref_fp = plan_fp(plan_query(parsing.outcome(itext, 'mindsdb').value, **copy.deepcopy(CATALOG)).steps)
+        except Exception:
+            pass
         ops = ['prepare', 'info', 'exec_n', 'exec_less', 'exec_more', 'exec_none']
         depth = 4 if self.tier == 'thorough' else 3
         seen = set()
@@ -311,10 +346,24 @@ class CHECK(Check):
         for seq in itertools.product(ops, repeat=depth):
             p = QueryPlanner(**copy.deepcopy(CATALOG))
             state = ('fresh',)
+            armed = False      # prepared successfully, and since then only asked for info / refused wrong-count executions
             for op in seq:
                 outcome = self.apply(p, op, qtext, markers)
                 nxt = (op, outcome[0])
                 transitions += 1
+                if armed and op == 'exec_n' and ref_fp is not None and n > 0:
+                    # a refused execution must leave the prepared statement usable: the right number of values plans the statement
+                    if outcome[0] != 'ok' or outcome[2] != ref_fp:
+                        res.violation(f'history|execute-after-refused-execute|{kind}|{outcome[0]}',
+                                      f'{qtext!r}: history {seq}: executing with {markers} gives {outcome[:2]}' + ('' if outcome[0] != 'ok' else ', a plan that differs from the plan of the inline statement'))
+                if armed and op in ('exec_less', 'exec_more') and outcome[0] != 'PlanningException':
+                    res.violation(f'history|wrong-count-after-prepare|{kind}|{outcome[0]}', f'{qtext!r}: history {seq}: {op} gives {outcome[0]}')
+                if op == 'prepare':
+                    armed = outcome[0] == 'ok'
+                elif op == 'info' or (op in ('exec_less', 'exec_more') and outcome[0] == 'PlanningException'):
+                    pass
+                else:
+                    armed = False
                 # judged transitions
                 prepared = getattr(p, 'statement', None) is not None and getattr(p.statement, 'params', None) is not None
                 if op == 'info' and state[0] == 'prepare' and state[1] == 'ok':
@@ -345,7 +394,7 @@ class CHECK(Check):
                 return ('ok', len(p.get_statement_info()['parameters']))
             vals = {'exec_n': list(markers), 'exec_less': list(markers)[:-1], 'exec_more': list(markers) + [999], 'exec_none': None}[op]
             steps = list(p.execute_steps(vals))
-            return ('ok', len(steps))
+            return ('ok', len(steps), plan_fp(steps))
         except (PlanningException,) as e:
             return ('PlanningException',)
         except NotImplementedError:
